@@ -11,7 +11,7 @@ import random
 from . import probes
 
 
-def gen_case(rng, max_funcs=6, p_bound=0.15, p_default=0.3, p_rename=0.3, p_nullary=0.12, p_tuple=0.25, p_decl=0.75, p_ign=0.08):
+def gen_case(rng, max_funcs=6, p_bound=0.15, p_default=0.3, p_rename=0.3, p_nullary=0.12, p_tuple=0.25, p_decl=0.75, p_ign=0.08, p_falsy=0.0):
     roots = [f"r{i}" for i in range(rng.randint(1, 3))]
     names = list(roots)
     defaults = {r: f"D{r}" for r in roots if rng.random() < p_default}
@@ -33,8 +33,10 @@ def gen_case(rng, max_funcs=6, p_bound=0.15, p_default=0.3, p_rename=0.3, p_null
                 fdef[p] = f"IGN{p}"  # default on a parameter that is an upstream output: never used
         use_rename = rng.random() < p_rename
         iparams = [f"a{k}" for k in range(len(params))] if use_rename else list(params)
-        funcs.append({"name": f"f{i}", "params": params, "iparams": iparams, "outs": outs,
-                      "defaults": fdef, "bound": bound})
+        fd = {"name": f"f{i}", "params": params, "iparams": iparams, "outs": outs, "defaults": fdef, "bound": bound}
+        if p_falsy and rng.random() < p_falsy:
+            fd["ret"] = rng.choice(sorted(probes.FALSY))
+        funcs.append(fd)
         names.extend(outs)
     # a pipeline-level default exists only if some function actually declares it
     declared = {p for f in funcs for p in f["defaults"] if p in roots and p not in f["bound"]}
@@ -56,7 +58,7 @@ def build_funcs(case, log=None, fault=None, tag=None, cache=None, prefix="", ext
     for f in case["funcs"]:
         idef = {ip: f["defaults"][p] for p, ip in zip(f["params"], f["iparams"]) if p in f["defaults"]}
         fn = probes.make_probe(prefix + f["name"], f["iparams"], len(f["outs"]), log=log, defaults=idef, tag=tag,
-                               fault=(fault or {}).get(f["name"]) if fault else None)
+                               fault=(fault or {}).get(f["name"]) if fault else None, ret=f.get("ret"))
         renames = {ip: p for p, ip in zip(f["params"], f["iparams"]) if ip != p}
         kw = {}
         if renames:
@@ -139,11 +141,12 @@ def ref_eval(case, out, K, prefix="", defaults=None, bound=None):
                 raise Missing(p)
         calls.append(f["name"])
         t = call_term(f, args, prefix)
+        fv = probes.FALSY[f["ret"]] if f.get("ret") else None
         if len(f["outs"]) == 1:
-            memo[f["outs"][0]] = computed[f["outs"][0]] = t
+            memo[f["outs"][0]] = computed[f["outs"][0]] = (fv if f.get("ret") else t)
         else:
             for k, o in enumerate(f["outs"]):
-                memo[o] = computed[o] = f"{t}#{k}"
+                memo[o] = computed[o] = (fv if (f.get("ret") and k == 0) else f"{t}#{k}")
         return t
 
     if isinstance(out, (tuple, list)):
@@ -226,7 +229,7 @@ def all_outputs(case):
 
 
 def signature(case):
-    return repr([(f["params"], f["outs"], sorted(f["bound"]), sorted(f["defaults"]), f["iparams"] != f["params"])
+    return repr([(f["params"], f["outs"], sorted(f["bound"]), sorted(f["defaults"]), f["iparams"] != f["params"], f.get("ret"))
                  for f in case["funcs"]])
 
 
@@ -251,6 +254,10 @@ def classes(case):
             cl.add("defaults")
         if f["iparams"] != f["params"]:
             cl.add("renames")
+        if f.get("ret"):
+            cl.add("falsy_result")
+            if sum(1 for g in case["funcs"] if any(o in g["params"] and o not in g["bound"] for o in f["outs"])) >= 2:
+                cl.add("falsy_result_shared")
         if f["params"] and all(p in f["bound"] or p in case["defaults"] for p in f["params"]):
             cl.add("default_only_func")
         for p in set(f["params"]):
@@ -273,4 +280,5 @@ def describe(case):
             "funcs": [f"{f['name']}({', '.join(f['params'])}) -> {', '.join(f['outs'])}"
                       + (f" bound={f['bound']}" if f["bound"] else "")
                       + (f" defaults={f['defaults']}" if f["defaults"] else "")
-                      + (" renamed" if f["iparams"] != f["params"] else "") for f in case["funcs"]]}
+                      + (" renamed" if f["iparams"] != f["params"] else "")
+                      + (f" returns-{f['ret']}" if f.get("ret") else "") for f in case["funcs"]]}
